@@ -77,10 +77,10 @@ def alphabet(expr_ser):
     kinds = {"K": 1, "S": 3, "O": 4}
     toks = {(2, "f"), (0, "x"), (3, "("), (3, ")"), (1, "kw?"), (4, "op?")}
     for (k, text) in constants(expr_ser):
-        if k in kinds:
-            toks.add((kinds[k], text))
-        else:   # TokenValue matches any kind: try it as punctuation, operator and name
-            toks.add((3, text)); toks.add((4, text)); toks.add((2, text))
+        # every distinguished value in every token kind: a predicate must not accept its value
+        # in a kind it is not about (e.g. an identifier spelled like a keyword)
+        for kind in (0, 1, 2, 3, 4):
+            toks.add((kind, text))
     return sorted(toks)
 
 
@@ -109,7 +109,7 @@ def real_run(args):
 
 
 def sequences(ctx, alpha, salt):
-    ln = ctx.pick(4, 5) if len(alpha) <= 9 else ctx.pick(3, 4)
+    ln = ctx.pick(4, 5) if len(alpha) <= 9 else (ctx.pick(3, 4) if len(alpha) <= 22 else ctx.pick(2, 3))
     seqs = [list(s) for n in range(1, ln + 1) for s in itertools.product(alpha, repeat=n)]
     rnd = ctx.rng("seq", salt)
     for _ in range(ctx.pick(300, 5000)):
